@@ -309,6 +309,11 @@ func ScriptedHistories() [][]int {
 		{b + 0, b + 1, b + 5, b + 5, b + 7},        // no votes at all, expiry, finalise
 		{b + 0, b + 1, b + 2, b + 5, b + 7, b + 3}, // finalise twice
 		{b + 0, b + 1, b + 2, b + 5, b + 9, b + 5}, // nobody finalises: the hooks alone
+		// the votes are cast AFTER the option changed: still its own rule (added after a sub-agent's remark about the
+		// unchanged tree: the vote handler decided with the option currently in force)
+		{b + 0, b + 1, b + 5, b + 2, b + 5},
+		{b + 0, b + 1, b + 5, b + 2, b + 7},
+		{b + 0, b + 1, b + 5, b + 2, b + 6},
 	}
 }
 
